@@ -1,6 +1,7 @@
 import Hoot.Model.Flow
 import Hoot.Proofs.RespLimit
 import Hoot.Proofs.PartialParse
+import Hoot.Proofs.RespLoc
 import Hoot.Oracle.Heads
 
 /-! # C05 — response head parsing is exact and safe on every prefix
@@ -82,6 +83,19 @@ theorem C05_call_prefix_partial (c : CallSt) (h : Head) (hw : h.wf) (hs : h.fiel
     (n : Nat) (hlt : n < h.enc.length) :
     callTryResponse true c (h.enc.take n) = (c, .ok none) :=
   call_prefix_with_fallback c h hw hs hc hn hnot n hlt
+
+/-- **C05 at `Call` level as the code is, delimiting D10.** With the fallback present and for EVERY
+    well-formed head — 3xx with `Location` included: a prefix that ends before the end of the first
+    `Location` field line (the fields `pre` in front of line `f` carry no `Location`) yields `None` and
+    changes nothing. Together with `C05_exact` (the whole head, or more) this leaves exactly one family of
+    windows where the code deviates: inside a 3xx head, after a complete `Location` line — finding D10. -/
+theorem C05_call_prefix_before_location (c : CallSt) (h : Head) (hw : h.wf) (hs : h.fields.length ≤ 128)
+    (hc : 100 ≤ h.codeVal) (hn : h.namesShort)
+    (pre : List Field) (f : Field) (post : List Field) (hsplit : h.fields = pre ++ f :: post)
+    (hnoloc : (fieldsOf (pre.map Field.pair)).any (fun x => x.name == "location") = false)
+    (n : Nat) (hlt : n < h.statusLine.length + (encFields pre).length + f.enc.length) :
+    callTryResponse true c (h.enc.take n) = (c, .ok none) :=
+  call_prefix_before_location c h hw hs hc hn pre f post hsplit hnoloc n hlt
 
 /-- **D10 witness (evaluated).** With the fallback, the 302 head cut after `Location: /x CRLF Set-Cookie:
     a=b CRLF Content-Le` is returned as a complete response that consumes the whole window. -/
